@@ -273,6 +273,13 @@ def cases(tier, seed):
             for a in ([arm] if tier == "quick" else arms):
                 yield {"kind": "text", "text": a.replace("%s", st), "opts": [{}, {"initialize_vars": True}][m % 2]}
     yield {"kind": "text", "text": "10 INPUT A,B$:LINE INPUT C$:READ A,B$\n20 DATA 1,,X", "opts": {}}
+    # emitted lines far longer than 255 characters (a dozen converted functions in one statement) that carry the statement
+    # separator of BASIC09 inside a string constant: the call is still one call on one line
+    many = "+".join("STR$(%s)" % v for v in "ABCDEFGHIJKL")
+    for t in ('HPRINT(0,0),"SC \\ LV"+%s' % many, 'A=INSTR(1,"X \\ Y"+%s,"Q \\ R")' % many, 'PRINT "A \\ B";%s' % many.replace("+", ";"),
+              'B$=STRING$(2," \\ ")+%s:PLAY "C \\ D"' % many, 'IF A=1 THEN HPRINT(1,1),"P \\ Q"+%s ELSE PLAY " \\ "' % many):
+        for o in ({}, {"output_dependencies": True, "procname": "prog"}, {"initialize_vars": True, "default_str_storage": 80}):
+            yield {"kind": "text", "text": "10 " + t, "opts": o}
     # string constants holding characters that a line-splitting routine of the host language (not the tool's grammar) takes
     # for line ends, with and without the runtime procedures in front of the program: the call is still one call
     for j, t in enumerate(stemplates):
